@@ -584,6 +584,11 @@ func Run(r *evid.Run) {
 	for n := 1; n <= 16; n++ {
 		progFault[n] = programs(min(n, bndProg), 1, "TVP")
 	}
+	// the targeted families run first, the large exhaustive enumeration last (an internal deadline then only cuts the latter short)
+	boundarySweeps(r)
+	unmarshalRoutes(r)
+	SparsePointers(r, "c05")
+	surrogateSplits(r)
 	views.ForAll(r, vs, func(w *enum.Worker, v views.View) func([]byte) {
 		x := newRunner()
 		var f docFilter
@@ -670,10 +675,6 @@ func Run(r *evid.Run) {
 		}
 	})
 	r.Bound("documents: every interesting (valid, viable or first-error-at-last-byte) string of the views; <=%d bytes: all 2^(n-1) cut sets x 4 styles x all programs of <=%d ops; <=%d bytes: <=2 cuts + one-byte reader x 4 styles x programs with <=%d deviations (length %d); single faults before every Read call x 3 reader shapes x programs with <=1 deviation", exhLen, exhProg, bndLen, bndDev, bndProg)
-	boundarySweeps(r)
-	unmarshalRoutes(r)
-	SparsePointers(r, "c05")
-	surrogateSplits(r)
 }
 
 // SparsePointers: StackPointer itself forces the decoder to copy pending member names, so observing it
